@@ -129,9 +129,9 @@ def assemble(unit, canary=False):
         norm = normalise.normalise_fn(raw, where, applied, vf.rules, vf.subs)
         ovl_path = os.path.join(VX, unit.name, "overlays", vf.overlay)
         ovl = _read(ovl_path)
-        woven, winfo = weave.weave(norm, ovl, vf.overlay)
         if canary:
-            woven = _insert_canary(woven)
+            norm = _insert_canary(norm)
+        woven, winfo = weave.weave(norm, ovl, vf.overlay)
         first = len(out) + 1
         emit(woven)
         last = len(out)
@@ -195,11 +195,11 @@ def _insert_canary(woven):
     """Insert `proof { assert(false); }` as the first statement of the fn body (vacuity guard:
     a contradictory precondition would let it pass)."""
     lines = woven.split("\n")
-    masked = rustlex.mask(woven)
-    bo = normalise._fn_body_open(masked)
-    ln = woven[:bo].count("\n")
-    lines.insert(ln + 1, "        proof { assert(false); } // CANARY")
-    return "\n".join(lines)
+    for i, l in enumerate(lines):
+        if l.strip() == "{":     # N0 put the body's opening brace on its own line
+            lines.insert(i + 1, "        proof { assert(false); } // CANARY")
+            return "\n".join(lines)
+    raise Undecided("canary: no body-opening brace line found")
 
 
 def lint_ghost_file(text, name):
